@@ -58,6 +58,14 @@ claimed["C13"] = dict(
    text="Deductive proof of panic-freedom of Pickle.Handle and checkProtocol for every byte stream (every type assertion is guarded, every index is within the checked lengths, the chunk loop stays within its buffer for every payload length including 0), plus a bounded stand-in for the equivalence with text input: frames produced by CPython's pickle module (protocols 0-4) are fed to the real handler under several segmentations and compared with the equivalent text lines.",
    note="Which Go types the pinned ogórek produces for which CPython opcodes is the library's contract; the equivalence clause is decided by the bounded stand-in only (40 frames x 4 segmentations, not counted as proved). Two open known findings inside ogórek are listed in known_findings.json (protocol-0 non-ASCII names, negative BININT values).",
    ref="7 C13")
+claimed["C06"] = dict(
+   text="Deductive proof on the real relay event loop (loop invariant plus a per-iteration branch contract): every iteration that takes a line from the destination's input channel hands it to exactly one place -- the connection's queue, the spool's real-time queue -- or increments exactly one drop counter (slow connection, slow spool, connection down without spool); with the connection down and spooling off the connection-down counter always moves. The two helpers that hand a line on (function literals of relay) are proved non-blocking (a select with a default is their only channel operation) and to count what they drop. Panic-freedom of relay is proved under the constructor-established parameters.",
+   note="'Returns within a bounded time' is a liveness/timing claim that contracts cannot express; what is proved is the accounting and the non-blocking effect of the hand-off helpers. The flush and shutdown branches of relay do block (they wait for the connection goroutine) and are outside the proved effect. Channel ownership (each channel is created by its own make and closed only by its owner; dest.In is never closed) is an assumed loop invariant, listed in the evidence; updateConn, collectRedo and Spool.Close are trusted; route dispatchers blocking only on dest.In is visible in their contracts (C01) but not a proved effect.",
+   ref="7 C06")
+claimed["C14"] = dict(
+   text="Deductive proof of panic-freedom obligations (nil dereference, index/slice bounds, division by zero, failed type assertion, negative make, close of closed channel, explicit panic, library preconditions such as NewTicker's positive period) for the network-facing handlers Plain.Handle, Pickle.Handle and checkProtocol for every byte stream, for the relay loop, GrafanaNet.Dispatch and ConsistentHashing.Dispatch under the invariants their constructors establish, and of the constructor side of the property: destination.New, aggregator.New/NewMocked (interval, regex), clock.AlignedTick's precondition at its call site, NewWriter's size -- each either establishes the invariant or returns an error. Every other function under contract carries the same obligations inside the check of the property it serves.",
+   note="Only the functions named in the evidence are covered: imperatives.Apply and the telnet/admin parser, cfg.Init*, UDP/AMQP inputs, Aggregator.run/Flush, HandleData, the Kafka/PubSub/CloudWatch routes and NewGrafanaNet's body are not under contract yet, so no claim is made for them; externs are assumed not to panic when their stated preconditions hold; memory exhaustion is out of scope.",
+   ref="7 C14")
 reasons = {
  "C08": "crash-point quantifier needs a crash semantics for the file system, a recovery function and a crash invariant at every intermediate state (crash Hoare logic); no contract within reach of the VC generator written here expresses it (DESIGN.md section 11)",
 }
